@@ -284,6 +284,8 @@ UpdOpret(sh, ev) ==
     [] ev.op \in {"wake", "complete"} /\ ok /\ co.f \in DOMAIN sh.fut ->
          [base EXCEPT !.fut[co.f].want = TRUE]
     [] ev.op = "end_stream" /\ ok -> [base EXCEPT !.sended[tgt] = TRUE]
+    \* n items at once (beyond the per-dispatch limits of the real code)
+    [] ev.op \in {"push_many", "send_many"} /\ ok -> [base EXCEPT !.queue[tgt] = @ \o [i \in 1..co.d |-> co.m + i]]
     [] ev.op = "clone_sender" /\ ok -> [base EXCEPT !.senders[tgt] = @ + 1]
     [] ev.op = "drop_sender" /\ ok -> [base EXCEPT !.senders[tgt] = @ - 1]
     [] ev.op = "wr" /\ ok ->
@@ -594,6 +596,9 @@ PendingCheck(sh) ==
                                           /\ sh.life[p[1]] = "in" /\ ~sh.fuzzy[p[1]]}
   IN If(missed # {}, {<<"C02", "pending_cause_not_dispatched">>})
      \cup If(\E p \in missed : IsTimer(sh, p[1]), {<<"C05", "due_timer_not_fired">>})
+     \* C07: ... and a callback of this dispatch disabled / updated / removed ANOTHER source meanwhile: that operation
+     \* disturbed a source it was not aimed at
+     \cup If(\E p \in missed : sh.cbTargets \ {p[1]} # {}, {<<"C07", "operation_on_one_source_silenced_another">>})
      \cup If(sh.prevDispErr /\ missed # {}, {<<"C15", "event_lost_after_failed_dispatch">>})
      \cup If(\E p \in missed : Kind(sh, p[1]) = "ping", {<<"C03", "ping_lost">>})
      \cup If(\E p \in missed : Kind(sh, p[1]) = "chan", {<<"C04", "message_stranded">>})
